@@ -1445,5 +1445,7 @@ def run(chk, tier):
     chk.guard('C08.e', lambda: c08.rule_valist(chk, prog, tier))        # va_arg of a structure or union (unsupported) is diagnosed
     from props import c05
     chk.guard('C05.c2', lambda: c05.rule_pointer_scale(chk, prog, tier))      # arithmetic on pointers to variable-length arrays (incomplete feature) is diagnosed, not scaled by 0
+    from props import c15
+    chk.guard('C15.f', lambda: c15.rule_case_conversion(chk, prog, tier))     # case constants that are equal after conversion to the controlling type are duplicates and are diagnosed
     from props import c09
     chk.guard('C09.f', lambda: c09.rule_redecl_types(chk, prog, tier))
